@@ -16,6 +16,7 @@ import (
 	"sort"
 	"strconv"
 	"strings"
+	"sync"
 	"sync/atomic"
 
 	cloudstorage "cloud.google.com/go/storage"
@@ -524,6 +525,11 @@ type uploadData struct {
 	Object storage.Object
 	Conds  cloudstorage.Conditions
 	data   []byte
+
+	// mu serialises the requests of one session (a client may re-send a chunk or ask for the status while an
+	// earlier request of the session is still being served); done is set once the upload has been completed.
+	mu   sync.Mutex
+	done bool
 }
 
 func (g *GcsEmu) handleGcsNewBucket(ctx context.Context, w http.ResponseWriter, r *http.Request, _ cloudstorage.Conditions) {
@@ -663,6 +669,14 @@ func (g *GcsEmu) handleGcsNewObjectResume(ctx context.Context, baseUrl HttpBaseU
 		return
 	}
 
+	u.mu.Lock()
+	defer u.mu.Unlock()
+	if u.done {
+		// completed by a request that was served while this one waited: the session no longer exists
+		g.gapiError(w, http.StatusNotFound, "no such id")
+		return
+	}
+
 	if len(u.data) < int(byteRange.lo) {
 		g.gapiError(w, http.StatusBadRequest, "missing content")
 		return
@@ -696,6 +710,7 @@ func (g *GcsEmu) handleGcsNewObjectResume(ctx context.Context, baseUrl HttpBaseU
 	}
 
 	g.uploadIds.Remove(id)
+	u.done = true
 	w.Header().Set("x-goog-generation", strconv.FormatInt(meta.Generation, 10))
 	w.Header().Set("X-Goog-Metageneration", strconv.FormatInt(meta.Metageneration, 10))
 	g.jsonRespond(w, meta)
